@@ -3,61 +3,79 @@
    The Go driver (harness/cmd/c07) feeds a concatenation of valid frames chunk by chunk through a real
    network connection (pkg/network) whose read filter runs the real protocol selection and the real
    ServerStreamConnection.Dispatch, and records after every chunk what reached the stream layer.
-     run{proto,cls,lens,units,mode}  a new connection; lens = message lengths in bytes, units = lengths of the
+     run{proto,cls,lens,units,ends,uends,mode}
+                                     a new connection; lens = message lengths in bytes, units = lengths of the
                                      pieces the decoder drains (equal to lens except HTTP/2: the 24-byte connection
-                                     preface is a unit of its own, then the H2 frames); mode = how the listener is
+                                     preface is a unit of its own, then the H2 frames); ends / uends = their end
+                                     offsets (checked against the lengths here, so that runs of a thousand messages -
+                                     the burst class: more complete frames in ONE read than any per-call bound of a
+                                     Dispatch loop - are judged in O(n) per chunk); mode = how the listener is
                                      configured: fixed (one protocol, no matcher) | auto | list;
                                      peek = 1: inspector-mode transport with a plain-text client (run also names
                                      the transport: plain | inspector | tls)
      feed{n,got,buffered}            n more bytes were read; got = messages handed to NewStreamDetect/OnReceive
                                      since the previous event: i = which sent message it is (0 = none of them),
                                      ok = content identical to whole delivery; buffered = bytes left in the
-                                     read buffer when Dispatch returned (-1: not observable, HTTP/1)
+                                     read buffer when Dispatch returned (-1: not observable, HTTP/1);
+                                     reads (optional) = sizes of the real Read calls the chunk arrived in
      pause{got,buffered}             the read deadline expired once (the connection reported OnReadTimeout) and the
                                      read loop is waiting again; same fields as feed
      err{what}                       the real code rejected / hung on / panicked on this valid input
    The expectation after every chunk is exactly the spec's invariants, evaluated on the recorded values. *)
 EXTENDS Framing, VTrace
 
-VARIABLES units, tpeek      \* tpeek: the transport peeks one byte (inspector listener, plain-text client)
-tvars == <<vars, units, tpeek, l>>
+VARIABLES units, tpeek,     \* tpeek: the transport peeks one byte (inspector listener, plain-text client)
+          fe, ue,           \* end offsets of the messages / of the units of this run
+          nout, nun         \* messages / units wholly inside the bytes sent so far
+tvars == <<vars, units, tpeek, fe, ue, nout, nun, l>>
 
+(* Every step is judged on its own and the state is then resynchronised with the stream: what has been handed over
+   is taken to be the canonical prefix of nout messages. The spec's variable `out` is therefore represented by its
+   length (`out` itself stays empty: a run of the burst class has a thousand messages and tens of thousands of steps). *)
 TraceInit == /\ l = 1 /\ frames = <<>> /\ units = <<>> /\ fed = 0 /\ cons = 0 /\ out = <<>> /\ pc = "read" /\ cuts = <<>> /\ pre = "done"
-             /\ held = 0 /\ lost = 0 /\ pauses = <<>> /\ tpeek = 0 /\ prior = 0 /\ cap = 0
+             /\ held = 0 /\ lost = 0 /\ pauses = <<>> /\ tpeek = 0 /\ prior = 0 /\ cap = 0 /\ handled = 0
+             /\ fe = <<>> /\ ue = <<>> /\ nout = 0 /\ nun = 0
 
 TRun == /\ IsEvent("run")
         /\ frames' = Ev.lens /\ units' = Ev.units
+        /\ fe' = Ev.ends /\ ue' = Ev.uends
+        /\ EndsOf(Ev.lens, Ev.ends) /\ EndsOf(Ev.units, Ev.uends)      \* the recorded geometry is checked, not trusted
         /\ tpeek' = IF Has(Ev, "peek") THEN Ev.peek ELSE 0
         /\ fed' = 0 /\ cons' = 0 /\ out' = <<>> /\ pc' = "read" /\ cuts' = <<>> /\ pre' = pre
         /\ held' = 0 /\ lost' = 0 /\ pauses' = <<>> /\ prior' = (IF Has(Ev, "prior") THEN Ev.prior ELSE 0) /\ cap' = cap
+        /\ handled' = 0 /\ nout' = 0 /\ nun' = 0
 
 Bogus == [start |-> 0 - 1, len |-> 0]
 
 (* n more bytes were sent (n = 0: the read deadline expired instead); in the trace `fed` counts the bytes SENT.
    exact: the read buffer must account for every byte sent. It is not exact only while the inspector wrapper
-   holds the peeked first byte: after the 1-byte first chunk and before anything else happened. *)
+   holds the peeked first byte: after the 1-byte first chunk and before anything else happened.
+   The expectations are Framing's NoEarly / Prompt / InOrderOnce / Consumed on the recorded values:
+   what is out after the chunk = the nout messages out before + got. *)
 Step(n, exact) ==
          LET f2  == fed + n
-             k1  == Complete(frames, f2)
+             k1  == CompleteFrom(fe, nout, fed, f2)       \* = Complete(fe, f2)
+             u1  == CompleteFrom(ue, nun, fed, f2)        \* = Complete(ue, f2)
              got == Ev.got
-             o2  == out \o [j \in 1..Len(got) |->
-                              IF got[j].i \in 1..Len(frames) THEN Range(frames, got[j].i) ELSE Bogus]
-         IN /\ Expect(NoEarlyOK(frames, f2, o2), "frame-before-its-last-byte")
-            /\ Expect(Len(o2) >= k1, "frame-missing")
-            /\ Expect(Len(o2) > k1 \/ Len(o2) < k1 \/ InOrderOnceOK(frames, o2), "order-or-duplicate")
+             new == [j \in 1..Len(got) |->
+                              IF got[j].i \in 1..Len(fe) THEN Range(fe, got[j].i) ELSE Bogus]
+             n2  == nout + Len(new)
+         IN /\ Expect(n2 <= k1, "frame-before-its-last-byte")
+            /\ Expect(n2 >= k1, "frame-missing")
+            /\ Expect(n2 > k1 \/ n2 < k1 \/ InOrderOnceFromOK(fe, nout, new), "order-or-duplicate")
             /\ Expect(\A j \in 1..Len(got) : got[j].ok, "content-differs")
             /\ Expect(\/ Ev.buffered = 0 - 1
-                      \/ ConsumedOK(units, f2, f2 - Ev.buffered)
+                      \/ f2 - Ev.buffered = EndAt(ue, u1)               \* ConsumedOK(ue, f2, f2 - buffered)
                       \/ (~exact /\ Ev.buffered = 0),
                       IF n = 0 THEN "bytes-lost-after-read-timeout" ELSE "buffer-accounting")
             /\ fed' = f2
-            /\ out' = [i \in 1..k1 |-> Range(frames, i)]      \* resynchronise: judge every step on its own
-            /\ cons' = Off(units, Complete(units, f2))
+            /\ nout' = k1 /\ nun' = u1                        \* resynchronise: judge every step on its own
+            /\ cons' = EndAt(ue, u1)
             /\ pc' = "read" /\ cuts' = <<>>
-            /\ UNCHANGED <<frames, units, tpeek, pre, held, lost, prior, cap>>
+            /\ UNCHANGED <<frames, units, tpeek, fe, ue, out, pre, held, lost, prior, cap, handled>>
 
 TFeed == /\ IsEvent("feed")
-         /\ Ev.n >= 1 /\ fed + Ev.n <= Total(frames)              \* the driver never feeds beyond the stream
+         /\ Ev.n >= 1 /\ fed + Ev.n <= EndAt(fe, Len(fe))          \* the driver never feeds beyond the stream
          /\ Step(Ev.n, ~(tpeek = 1 /\ fed = 0 /\ Ev.n = 1))
          /\ UNCHANGED pauses
 
@@ -68,7 +86,7 @@ TPause == /\ IsEvent("pause")
 
 TErr == /\ IsEvent("err")
         /\ Expect(FALSE, "error-" \o Ev.what)
-        /\ UNCHANGED <<vars, units, tpeek>>
+        /\ UNCHANGED <<vars, units, tpeek, fe, ue, nout, nun>>
 
 TraceNext == TRun \/ TFeed \/ TPause \/ TErr
 TraceSpec == TraceInit /\ [][TraceNext]_tvars
